@@ -205,6 +205,71 @@ func RandTree(r *rand.Rand, budget *int, maxDepth int) *Node {
 	return n
 }
 
+// Lengthen rewrites up to k random item headers of a VALID encoding with a longer (non-canonical)
+// length field carrying the same value.
+func Lengthen(enc []byte, k int, r *rand.Rand) []byte {
+	for ; k > 0; k-- {
+		var offs []int
+		var walk func(pos int) int
+		walk = func(pos int) int {
+			offs = append(offs, pos)
+			fc, nl := int(enc[pos]>>2), int(enc[pos]&3)
+			l := 0
+			for i := 0; i < nl; i++ {
+				l = l<<8 | int(enc[pos+1+i])
+			}
+			pos += 1 + nl
+			if fc == 0 {
+				for i := 0; i < l; i++ {
+					pos = walk(pos)
+				}
+				return pos
+			}
+			return pos + l
+		}
+		walk(0)
+		o := offs[r.Intn(len(offs))]
+		nl := int(enc[o] & 3)
+		if nl == 3 {
+			continue
+		}
+		add := 1 + r.Intn(3-nl)
+		out := append([]byte(nil), enc[:o]...)
+		out = append(out, enc[o]&^3|byte(nl+add))
+		out = append(out, make([]byte, add)...)
+		out = append(out, enc[o+1:]...)
+		enc = out
+	}
+	return enc
+}
+
+// Decoded wraps a logical value as an 'R' node: the item secs2.Decode returns for an encoding
+// (canonical, or with some non-canonical length fields) of that value.
+func Decoded(v *Node, r *rand.Rand) *Node {
+	raw := RefEncode(v, nil)
+	if r.Intn(2) == 0 {
+		raw = Lengthen(raw, 1+r.Intn(3), r)
+	}
+	return &Node{Kind: 'R', Bytes: raw, Kids: []*Node{v}}
+}
+
+// WithDecoded returns a copy of the tree in which some subtrees (never the root, never one
+// containing an EmptyItem) are replaced by decoded items.
+func WithDecoded(n *Node, r *rand.Rand, root bool) *Node {
+	if !root && n.Kind != 'E' && !n.HasEmptyChild() && n.Depth() <= 64 && !n.Gen && r.Intn(3) == 0 {
+		return Decoded(n, r)
+	}
+	if n.Kind != 'L' {
+		return n
+	}
+	cp := *n
+	cp.Kids = make([]*Node, len(n.Kids))
+	for i, k := range n.Kids {
+		cp.Kids[i] = WithDecoded(k, r, false)
+	}
+	return &cp
+}
+
 // Nest wraps x in k single-child lists.
 func Nest(k int, x *Node) *Node {
 	for i := 0; i < k; i++ {
